@@ -1,3 +1,4 @@
+import SimbodyModel.Gen.StateCopy
 /-!
 # C18 — executable model of `SimTK::State` stage / version / cache bookkeeping  (kind D, exact)
 
@@ -18,6 +19,10 @@ Conventions
   dependents lists, which `invalidate()` never changes), `invalidateMany` applies them.
 * the five per-stage event-trigger stacks are one list (pushes are in allocation order, so popping the
   single list back to a stage is the same as popping each per-stage stack).
+* field `fresh` of a cache entry is a ghost (no C++ counterpart, never read by the model's observable part):
+  "marked valid since the last time its depends-on stage was invalidated / `invalidate()` was called on it /
+  it was copied without its depends-on stage".
+* `Gen.copyBumpsAbove` is re-extracted from State.cpp on every run (translator, checks/C18.py).
 * fields `gQ gU gZ gDV gCE` of a cache entry are the C++ fields `m_qVersion … m_cacheEntryVersions`
   which the C++ records only when compiled without NDEBUG (`recordPrerequisiteVersions`); the model always
   records them (they are not observable), so that the theorem "the Debug double check can never fire" can
@@ -77,13 +82,14 @@ structure CE where
   gZ : Nat := 0
   gDV : List Nat := []
   gCE : List Nat := []
+  fresh : Bool := false               -- ghost: marked since the last invalidation (see `CE.invN`, `Sub.restore`, `Sub.copyOf`)
 deriving Repr, DecidableEq, Inhabited
 
 def CE.hasPre (e : CE) : Bool := e.preQ || e.preU || e.preZ || !e.preDV.isEmpty || !e.preCE.isEmpty
 
 /-- `CacheEntryInfo::invalidate()` executed `n` times -/
 def CE.invN (e : CE) (n : Nat) : CE :=
-  if n = 0 then e else { e with stamp := 0, flag := false, valVer := e.valVer + n }
+  if n = 0 then e else { e with stamp := 0, flag := false, valVer := e.valVer + n, fresh := false }
 
 /-- `DiscreteVarInfo` -/
 structure DV where
@@ -243,7 +249,9 @@ def Sub.restore (sb : Sub) (g : Nat) : Sub :=
     udoterrInfo := popBack Al.alloc g sb.udoterrInfo,
     trig := popBack Tr.alloc g sb.trig,
     dvs := popBack DV.alloc g sb.dvs,
-    ces := popBack CE.alloc g sb.ces }
+    -- ghost: the depends-on stage of these entries is being invalidated ("the validity indicator is cleared
+    -- automatically whenever the Subsystem stage is reduced below `earliest`")
+    ces := (popBack CE.alloc g sb.ces).map (fun e => if g < e.dep ∧ e.dep ≤ sb.cur then { e with fresh := false } else e) }
 
 /-- the cache entries (with their keys) that `restoreToStage(g)` destructs in subsystem `s` -/
 def Sub.popped (sb : Sub) (s : Nat) (g : Nat) : List (Key × CE) :=
@@ -463,7 +471,7 @@ def St.markCE (st : St) (k : Key) : St :=
   | none => st
   | some sb =>
     st.modCE k (fun e => { e with
-      stamp := sb.ver e.dep, flag := true,
+      stamp := sb.ver e.dep, flag := true, fresh := true,
       gQ := if e.preQ then st.qVer else e.gQ,
       gU := if e.preU then st.uVer else e.gU,
       gZ := if e.preZ then st.zVer else e.gZ,
@@ -597,7 +605,7 @@ def resS (st : St) (op : SOp) : Res :=
 def Sub.copyOf (src : Sub) : Sub :=
   let tg := min src.cur 3
   { cur := tg,
-    vers := mapI (fun i v => if i ≤ tg then v else if i ≤ src.cur then v + 1 else 1) src.vers,
+    vers := mapI (fun i v => if i ≤ tg then v else if i ≤ src.cur ∨ Gen.copyBumpsAbove = true then v + 1 else 1) src.vers,
     qInfo := popBack CV.alloc tg src.qInfo,
     uInfo := popBack CV.alloc tg src.uInfo,
     zInfo := popBack CV.alloc tg src.zInfo,
@@ -606,7 +614,8 @@ def Sub.copyOf (src : Sub) : Sub :=
     udoterrInfo := popBack Al.alloc tg src.udoterrInfo,
     trig := popBack Tr.alloc tg src.trig,
     dvs := (popBack DV.alloc tg src.dvs).map (fun d => { d with deps := [] }),
-    ces := (popBack CE.alloc tg src.ces).map (fun e => { e with deps := [] }) }
+    -- ghost: a copied entry stays `fresh` only if its depends-on stage was copied and it has no prerequisites
+    ces := (popBack CE.alloc tg src.ces).map (fun e => { e with deps := [], fresh := e.fresh && decide (e.dep ≤ tg) && !e.hasPre }) }
 
 /-- `registerWithPrerequisitesAfterCopy` -/
 def St.registerAll (st : St) : St :=
@@ -661,6 +670,7 @@ inductive Op where
   | addSub (k : Nat)
   | snap (k : Nat)
   | diff (k : Nat)
+  | probeStale (k s c : Nat)      -- query isCacheValueRealized at the end of a copy scenario (harness adds a P line)
 deriving Repr, DecidableEq, Inhabited
 
 def World.live (w : World) (k : Nat) : Option St := (w.sts[k]?).join
@@ -688,6 +698,7 @@ def legal (w : World) : Op → Bool
   | .setNumSubs k n => 1 ≤ n && n ≤ 4 && (match w.live k with | some st => st.pristine | none => false)
   | .addSub k => match w.live k with | some st => st.pristine && st.subs.length < 4 | none => false
   | .snap k | .diff k => (w.live k).isSome
+  | .probeStale k s c => match w.live k with | some st => (st.ce? (s, c)).isSome | none => false
 
 def setSlot (l : List (Option St)) (k : Nat) (v : Option St) : List (Option St) := modAt l k (fun _ => v)
 
@@ -719,11 +730,13 @@ def step (w : World) : Op → World
       | some st => { w with snap := st.sysVers.take (st.sys + 1) }
       | none => w
   | .diff _ => w
+  | .probeStale _ _ _ => w
 
 def res (w : World) : Op → Res
   | .on k o => match w.live k with | some st => resS st o | none => .ok
   | .addSub k => match w.live k with | some st => .idx st.subs.length | none => .ok
   | .diff k => match w.live k with | some st => .idx (diffStage st.sysVers st.sys w.snap) | none => .ok
+  | .probeStale k s c => match w.live k with | some st => .idx (if st.isRealized (s, c) then 1 else 0) | none => .ok
   | _ => .ok
 
 def run (w : World) (ops : List Op) : World := ops.foldl step w
